@@ -1,2 +1,53 @@
-(** C10 — statements only; see Proofs/. *)
-From RRSS Require Import Base.Outcome.
+(** C10 — Same program and input give the same output, result and messages every time.
+    Statements only; proofs in Proofs/OrderLaws.v.
+    The model is a function (no hash table, no address, no clock): what has to be shown is that the
+    three places where val.rs iterates a HashMap — Display, join and equality — compute something
+    that does not depend on the arrangement of the entries; everywhere else tables are accessed by key. *)
+From Coq Require Import List ZArith NArith Bool Sorting.Permutation.
+From RRSS Require Import Base.Outcome Base.Chars Base.F64 Exec.Val Proofs.OrderLaws.
+Import ListNotations.
+
+(** printing: the rendered text is the same for every arrangement of the dictionary ... *)
+Theorem C10_display_order_independent :
+  forall a d d', Permutation d d' -> v_display (VArr a d) = v_display (VArr a d').
+Proof. exact display_order_independent. Qed.
+
+(** ... and depends on nested values only through their own renderings (so this nests) *)
+Theorem C10_display_congruence :
+  forall a a' d d', map v_display a = map v_display a' -> map render_entry d = map render_entry d' ->
+  v_display (VArr a d) = v_display (VArr a' d').
+Proof. exact display_congruence. Qed.
+
+(** join: the joined text, and which element an error names, are the same for every arrangement *)
+Theorem C10_join_order_independent :
+  forall a d d' delim, NoDup (map fst d) -> Permutation d d' -> v_join (VArr a d) delim = v_join (VArr a d') delim.
+Proof. exact join_order_independent. Qed.
+
+Theorem C10_val_iter_order_independent :
+  forall a d d', NoDup (map fst d) -> Permutation d d' -> val_iter a d = val_iter a d'.
+Proof. exact val_iter_order_independent. Qed.
+
+(** comparison: equality of arrays sees dictionaries as finite maps *)
+Theorem C10_val_eq_order_independent :
+  forall xa xd ya yd yd', NoDup (map fst yd) -> Permutation yd yd' ->
+  val_eq (VArr xa xd) (VArr ya yd) = val_eq (VArr xa xd) (VArr ya yd').
+Proof. exact val_eq_order_independent_r. Qed.
+
+(** lookups by key do not depend on the arrangement *)
+Theorem C10_dict_get_order_independent :
+  forall k d d', NoDup (map fst d) -> Permutation d d' -> dict_get k d = dict_get k d'.
+Proof. exact dict_get_perm. Qed.
+
+(** sorting (used by Display and by the linter's postprocess on keys) is a function of the multiset *)
+Theorem C10_sorted_strings_order_independent :
+  forall l1 l2, Permutation l1 l2 -> isort str_compare l1 = isort str_compare l2.
+Proof. exact sorted_strings_order_independent. Qed.
+
+Example C10_example :
+  let d1 := [(KStr (lit "z"), VStr (lit "1")); (KStr (lit "m"), VStr (lit "2")); (KNull, VStr (lit "3"))] in
+  let d2 := [(KNull, VStr (lit "3")); (KStr (lit "z"), VStr (lit "1")); (KStr (lit "m"), VStr (lit "2"))] in
+  v_join (VArr [] d1) None = Ok (VStr (lit "321")) /\ v_join (VArr [] d2) None = Ok (VStr (lit "321")) /\
+  v_display (VArr [] d1) = v_display (VArr [] d2) /\ val_eq (VArr [] d1) (VArr [] d2) = true.
+Proof. vm_compute. repeat split; reflexivity. Qed.
+
+Print Assumptions C10_join_order_independent.
